@@ -23,6 +23,8 @@ extern "C" {
     int cv_type(void) { return cv_msg.data.type_; }
     int cv_has_iov(void) { return cv_msg.msg_iov != 0; }
     char cv_raw(unsigned long i) { return cv_msg.data.raw[i]; }
+    const void *cv_msg_addr(void) { return &cv_msg; }
+    const char *cv_raw_base(void) { return cv_msg.data.raw; }
     void cv_set_size(unsigned long v) { cv_msg.data.size = v; }
     void cv_set_offset(unsigned int v) { cv_msg.offset = v; }
     void cv_set_type(int v) { cv_msg.data.type_ = v; }
